@@ -22,7 +22,8 @@ check("C01", "Gating obligations on the real validation code: the block-level pe
       "trusted: mirsym MIR semantics, std/map models, the utxo-key layout model; callees are uninterpreted; chain-history facts are outside", "MIR-to-SMT symbolic execution (mirsym) decided by z3", "DESIGN.md 4/C01")
 NOT_APPLICABLE.setdefault('C02', NA_PENDING)
 NOT_APPLICABLE.setdefault('C04', NA_PENDING)
-NOT_APPLICABLE.setdefault('C05', NA_PENDING)
+check("C05", "The two fork-choice kernels agree with their reference rules for every value inside the bound: the longest-chain predicate (strictly longer, cumulative burn fee at least as large in u128, ahead of the current tip) for segments of up to 3 (4) blocks, and the 2-in-6 golden-ticket window for every ancestor depth 0..6 and flag pattern.",
+      "trusted: mirsym semantics and models; which segments add_block passes in, and delivery-order effects, are outside", "MIR-to-SMT symbolic execution (mirsym) decided by z3", "DESIGN.md 4/C05")
 NOT_APPLICABLE.setdefault('C06', NA_PENDING)
 NOT_APPLICABLE.setdefault('C07', NA_PENDING)
 NOT_APPLICABLE.setdefault('C09', NA_PENDING)
